@@ -1,5 +1,5 @@
 """Correspondence for the binary64 model (`Model/SoftFloat.lean`, the function `sfAlg`'s theorems are about):
-CPython's `*` and `<=` on finite non-negative doubles vs `SF.mul` / `≤` on units (and Lean's hardware Float),
+CPython's `*`, `/` (int/int and float/float) and `<=` on finite non-negative doubles vs `SF.mul` / `SF.ratio` / `≤` on units (and Lean's hardware Float),
 bit for bit.  Inputs: probabilities of the shape rulesets contain (count/total), products of them, exact
 half-way products (ties to even), values around the normal/denormal border, underflow to zero, 1 ulp
 neighbours, random significands over the whole exponent range below 1."""
@@ -88,11 +88,44 @@ def run(ctx, n_quick=1500, n_thorough=40000):
         ops.append('fp.fold ' + ' '.join(common.f2h(x) for x in xs))
         h = common.f2h(acc)
         exp.append(f"{h} {h}")
+    # division: Python int / int (relative frequencies count / total, also beyond 2^53) and float / float (the base-structure list,
+    # whose total contains the fractional Markov pseudo-count)
+    kinds['int/int'] = kinds['float/float'] = 0
+    for _ in range(ctx.scale(1200, 30000)):
+        r = rng.random()
+        if r < 0.6:
+            t = rng.randrange(1, rng.choice([10, 1000, 10 ** 6, 10 ** 9]))
+            c = rng.randrange(0, t + 1)
+        elif r < 0.8:
+            t = rng.randrange(1, 1 << rng.randrange(1, 70))
+            c = rng.randrange(0, t + 1)
+        else:   # quotients that sit next to a rounding boundary: c/t close to k/2^53-ish patterns
+            t = (1 << rng.randrange(1, 60)) + rng.choice([-1, 1, 3])
+            t = max(t, 1)
+            c = rng.randrange(0, t + 1)
+        if r < 0.85:
+            ops.append(f"fp.ratio {c} {t}")
+            h = common.f2h(c / t)
+            exp.append(f"{h} {h}" if t < (1 << 53) else f"{h} *")
+            kinds['int/int'] += 1
+        else:
+            n = rng.randrange(1, 5000)
+            cov = rng.choice([0.1, 0.3, 0.5, 0.6, 0.75, 0.9, 0.99])
+            m = n / cov - n
+            total = n + m
+            a = float(rng.randrange(0, n + 1)) if rng.random() < 0.7 else m
+            if total > 0 and a <= total:
+                ops.append(f"fp.div {common.f2h(a)} {common.f2h(total)}")
+                h = common.f2h(a / total)
+                exp.append(f"{h} {h}")
+                kinds['float/float'] += 1
     dis = []
     out = common.run_driver(ops)
     if len(out) != len(exp):
         dis.append({'stream': 'fp', 'detail': f"driver answered {len(out)} lines for {len(exp)} ops"})
     for o, a, b in zip(ops, out, exp):
+        if b.endswith(' *'):    # operands beyond 2^53: Lean's Float.ofNat rounds them first, only the SF column is comparable
+            a, b = a.split(' ')[0], b.split(' ')[0]
         if a != b:
             dis.append({'stream': 'fp-binary64', 'op': o, 'model': a, 'implementation': b,
                         'note': 'columns: SF model (the function the sfAlg theorems are about), Lean hardware Float; implementation = CPython'})
